@@ -576,7 +576,14 @@ class SBlock(Block):
                 self.log_debug("pending event, initializing early")
                 # the initialization may be carried out with an event, let's enable it
                 with self._enable_event:    # type: ignore[attr-defined]
-                    self.circuit.init_sblock(self, full=True)
+                    try:
+                        self.circuit.init_sblock(self, full=True)
+                    except Exception as err:
+                        # The sender could be running code where errors are only logged
+                        # (_restore_state, init_async), but a failed initialization is fatal
+                        # no matter which block triggered it.
+                        self.circuit.abort(err)
+                        raise
             if isinstance(etype, str):
                 handler = type(self)._ct_handlers.get(etype)
             else:
